@@ -5,6 +5,7 @@
 #![allow(dead_code)]
 #![allow(unused_imports)]
 
+mod corpus;
 mod props;
 mod rng;
 mod runner;
